@@ -73,6 +73,7 @@ func corpusOne(verifDir, repoDir, patch, kind string, ruleIDs []string) corpusRe
 		res.Reported = []string{err.Error()}
 		return res
 	}
+	known, _ := readKnown(filepath.Join(verifDir, "known_findings.txt"))
 	for _, rid := range ruleIDs {
 		r := rules[rid]
 		if r == nil {
@@ -94,7 +95,16 @@ func corpusOne(verifDir, repoDir, patch, kind string, ruleIDs []string) corpusRe
 			}
 			real++
 			if o.Verdict != "holds" {
-				res.Reported = append(res.Reported, rid+"["+o.Key+"]")
+				// a recorded known finding is not news on a patched copy of the tree either
+				isKnown := false
+				for _, k := range known {
+					if k.Kind == "known" && k.Rule == rid && k.Key == o.Key {
+						isKnown = true
+					}
+				}
+				if !isKnown {
+					res.Reported = append(res.Reported, rid+"["+o.Key+"]")
+				}
 			}
 		}
 		if real < r.Floor {
